@@ -113,6 +113,6 @@ theorem batch_at_most_one_coeff (coef coef' : Nat → Int) (it0 it1 : Item) (res
     rw [hbad] at this; cases this
   have hne : j ≠ 0 := by omega
   have := zsmul_defect_eq_zero L prm _ bad hsub.symm hd
-  simpa [coefAt, hne] using this
+  simpa [coefAt_eq, hne] using this
 
 end Btc.Schnorr
